@@ -336,13 +336,13 @@ def replay(rep: dict) -> int:
     want = rep.get("signature") or {}
     hit = None
     for f in sr.findings:
-        sig = c17_run.classify(f, d, schema["module"])
+        sig = c17_run.classify(f, d, schema["module"], schema["src"])
         if f["kind"] == rep.get("finding_kind") and (rep.get("finding_name") in (None, f.get("name")) or sig == want):
             hit = f
             break
     if hit is None:
         for f in sr.findings:
-            if c17_run.classify(f, d, schema["module"]) == want:
+            if c17_run.classify(f, d, schema["module"], schema["src"]) == want:
                 hit = f
                 break
     if hit:
